@@ -163,7 +163,8 @@ with exec_branches (orc : list nat) (rho : env) (k : nat) (brs : branches) {stru
 Definition exec_prog (orc : list nat) (pre : list stmt) (main : block) : res xout :=
   match exec_block orc [] (block_of pre) with
   | Err e => Err e
-  | Ok (orc1, rho1, tr1, _) =>
+  | Ok (orc1, rho1, tr1, true) => Ok (orc1, rho1, tr1, true)
+  | Ok (orc1, rho1, tr1, false) =>
       let '(n, orc2) := next orc1 in
       match iter_while (fun o r => exec_block o r main) n orc2 rho1 with
       | Err e => Err e
@@ -187,8 +188,10 @@ Section Guard.
   Variable F : ftable.
   Variable A : aliases.
 
+  Definition typed (G : tenv) (e : pexpr) : bool :=
+    match infer_s F A C G e with Some _ => true | None => false end.
   Definition expr_ok (L G : tenv) (e : pexpr) (t : ty) : bool :=
-    guard F A C G e && guard F A C L e && ty_eqb (ety F A C G e) t && ty_eqb (ety F A C L e) t.
+    guard F A C G e && guard F A C L e && typed L e && ty_eqb (ety F A C G e) t && ty_eqb (ety F A C L e) t.
   Definition assign_ok (L G : tenv) (x : ident) (e : pexpr) : bool :=
     match tlookup x L with Some t => expr_ok L G e t | None => false end.
 
@@ -196,11 +199,13 @@ Section Guard.
     match infer_rhs_s F A C G r with Some (t, _) => t | None => TInt end.
   Definition assignr_ok (L G : tenv) (x : ident) (r : rhs) : bool :=
     match tlookup x L with
-    | Some t => rhs_guard F A C G r && rhs_guard F A C L r && ty_eqb (rty G r) t && ty_eqb (rty L r) t
+    | Some t => rhs_guard F A C G r && rhs_guard F A C L r &&
+                match infer_rhs_s F A C L r with Some _ => true | None => false end &&
+                ty_eqb (rty G r) t && ty_eqb (rty L r) t
     | None => false
     end.
   Definition ret_ok (L G : tenv) (e : pexpr) : bool :=
-    guard F A C G e && guard F A C L e && scalar (ety F A C L e) && ty_eqb (ety F A C G e) (ety F A C L e).
+    guard F A C G e && guard F A C L e && typed L e && scalar (ety F A C L e) && ty_eqb (ety F A C G e) (ety F A C L e).
 
   Definition promo_ok (base child : dctx) (basenames : list ident) : bool :=
     let D := match share_back (d_promo base) (d_promo child) with Some d => d | None => [] end in
